@@ -48,6 +48,21 @@ def handle : List String → Verdict
           some s!"development-mode WriteString returned {outS.take 120} for text-file line {String.ofList (line.map fun (c : UInt8) => Char.ofNat c.toNat)}; the literal denotes {want.take 120}",
         nontrivial := line.contains 92, tags := ["devlit"], sig := "devlit" }
     | none => .badOp
+  | ["session", nS, flagsS, litsS, diskS] =>
+    match hexList litsS with
+    | some lits =>
+      let disk := if diskS == "MISSING" then none else hexField diskS
+      { predfail := if disk == some (textFile lits) then none else
+          some s!"after {nS} edits (handler verdicts {flagsS}) the development text file is not the one for the last version: on disk {(disk.map Bytes.toHex).getD "nothing"}, expected {Bytes.toHex (textFile lits)}",
+        nontrivial := nS != "1", tags := ["session", "session-steps:" ++ nS], sig := "session" }
+    | none => .badOp
+  | ["live", round, phase, wantH, gotH] =>
+    match hexField wantH, hexField gotH with
+    | some want, some got =>
+      { predfail := if want == got then none else
+          some s!"long-running development-mode process, round {round}, {phase}: the text file holds {Bytes.toHex want} but the program rendered {Bytes.toHex got}",
+        nontrivial := true, tags := ["live:" ++ phase], sig := "live;" ++ phase }
+    | _, _ => .badOp
   | ["pair", changedS, _src1, _src2, code1H, code2H] =>
     match hexField code1H, hexField code2H with
     | some c1, some c2 =>
